@@ -11,7 +11,7 @@
     behaviour: observed by generating every input in several fresh processes and
     under permutations, comparing bytes. *)
 From Coq Require Import Sorting.Permutation Sorting.Sorted.
-From Verif Require Import Base.Str Proofs.SortFacts.
+From Verif Require Import Base.Str Proofs.SortFacts Model.GoEnums Proofs.EnumOrder.
 From Verif Require Import Gen.ImportTables Model.GoImports Spec.GoFileUses Proofs.ImportsOrder.
 Open Scope string_scope.
 Open Scope list_scope.
@@ -66,3 +66,25 @@ Theorem C13_imports_same_path_refuted :
     /\ sort_by (fun x : ispec => snd x) e1 <> sort_by (fun x : ispec => snd x) e2.
 Proof. exact pkg_list_same_path_refuted. Qed.
 Print Assumptions C13_imports_same_path_refuted.
+
+(** ** enum declarations and the lookup of user-defined types (Model/GoEnums.v,
+    Model/GoTypes.v): buildEnums sorts by Go name, so the declarations do not depend on
+    the order of the CREATE TYPE statements as long as the Go names are pairwise
+    distinct; and the Go type found for a column of a user-defined type does not depend
+    on the order of the types of its schema (names are unique within a schema: C08). *)
+Theorem C13_enums_sorted : forall rn c, build_enums rn c = sort_by ge_name (enums_of rn c (cat_schemas c)).
+Proof. exact build_enums_is_sort. Qed.
+Print Assumptions C13_enums_sorted.
+
+Theorem C13_enum_declarations_order_partial : forall rn c sname ts ts',
+  Permutation ts ts' ->
+  NoDup (map ge_name (flat_map (build_enum rn c sname) ts)) ->
+  sort_by ge_name (flat_map (build_enum rn c sname) ts) = sort_by ge_name (flat_map (build_enum rn c sname) ts').
+Proof. intros rn c sname ts ts' Hp Hnd. apply enums_sorted_order_independent; [exact Hnd | apply enums_perm_types; exact Hp]. Qed.
+Print Assumptions C13_enum_declarations_order_partial.
+
+Theorem C13_type_lookup_order_partial : forall rn c sname rs rnm nn ts ts',
+  NoDup (map typ_name ts) -> Permutation ts ts' ->
+  pg_scan_types_r rn c sname rs rnm nn ts = pg_scan_types_r rn c sname rs rnm nn ts'.
+Proof. exact scan_types_order_independent. Qed.
+Print Assumptions C13_type_lookup_order_partial.
